@@ -45,9 +45,11 @@ theorem literal_round_trip_bool (L : Leaf) (b : Bool) : parseLit L (printLit L (
 theorem literal_round_trip_int (L : Leaf) (i : Int) (h : IsI64 i) : parseLit L (printLit L (.int i)) = some (.int i) :=
   parseLit_printLit_int L i h
 
-theorem literal_round_trip_float (L : Leaf) (hL : LeafLaws L) (bits : Nat) :
+/-- float64: for the bit patterns a literal holds (`floatOK`: every number and one NaN — every NaN prints as `NaN`, and
+    since c010ae5 `Build` keeps one of them; before, a literal built from another NaN came back with other bits). -/
+theorem literal_round_trip_float (L : Leaf) (hL : LeafLaws L) (bits : Nat) (hb : L.floatOK bits = true) :
     parseLit L (printLit L (.float bits)) = some (.float bits) :=
-  parseLit_printLit_float L hL bits
+  parseLit_printLit_float L hL bits hb
 
 theorem literal_round_trip_text (L : Leaf) (t : Bytes) : parseLit L (printLit L (.text t)) = some (.text t) :=
   parseLit_printLit_text L t
@@ -56,7 +58,7 @@ theorem literal_round_trip_blob (L : Leaf) (bs : Bytes) : parseLit L (printLit L
   parseLit_printLit_blob L bs
 
 /-- Every literal whose int64 is an int64. -/
-theorem literal_round_trip (L : Leaf) (hL : LeafLaws L) (l : Lit) (h : LitOK l) : parseLit L (printLit L l) = some l :=
+theorem literal_round_trip (L : Leaf) (hL : LeafLaws L) (l : Lit) (h : LitOK L l) : parseLit L (printLit L l) = some l :=
   parseLit_printLit L hL l h
 
 theorem int64_text_round_trip (i : Int) (h : IsI64 i) : parseInt64 (fmtInt i) = some i :=
@@ -139,7 +141,8 @@ theorem toyLeaf_laws : LeafLaws2 toyLeaf where
     simp only [toyLeaf, List.mem_append, List.mem_replicate, List.mem_singleton] at hm
     rcases hm with (⟨_, h⟩ | h) | ⟨_, h⟩ <;> revert h <;> decide
   time_nonempty := by intro t; simp [toyLeaf]
-  float_round := by intro b; simp [toyLeaf]
+  float_round := by intro b _; simp [toyLeaf]
+  float_parsed_ok := by intro s b _; rfl
   float_noDq := by
     intro b hm
     simp only [toyLeaf, List.mem_replicate] at hm
